@@ -64,6 +64,10 @@ pub struct RunReport {
     /// The run left thread-local engine / collector state unusable: the worker must exit.
     #[serde(default)]
     pub poisoned: bool,
+    /// Wall-clock milliseconds spent executing the run (measured by the worker; informational,
+    /// never part of a fingerprint).
+    #[serde(default)]
+    pub wall_ms: u64,
 }
 impl RunReport {
     pub fn violate(&mut self, class: impl Into<String>, detail: impl Into<String>) {
@@ -220,7 +224,9 @@ pub fn worker(prop: &Prop, tier: Tier, seed: u64, runs: impl Iterator<Item = u64
             let _ = o.flush();
         }
         let sc = scenario_for(prop, tier, seed, run);
-        let rep = guarded(|| (prop.execute)(&sc));
+        let t0 = Instant::now();
+        let mut rep = guarded(|| (prop.execute)(&sc));
+        rep.wall_ms = t0.elapsed().as_millis() as u64;
         let mut v = serde_json::to_value(&rep).expect("report serializes");
         if !rep.violations.is_empty() {
             v["scenario"] = sc;
@@ -317,6 +323,7 @@ struct Collected {
     execs: u64,
     fingerprints: BTreeMap<u64, u64>,
     violations: Vec<(u64, Violation, Option<Value>)>,
+    slowest: Vec<(u64, u64, String)>,
 }
 
 enum Msg {
@@ -424,6 +431,7 @@ fn run_chunks(prop: &Prop, tier: Tier, seed: u64, lists: Vec<Vec<u64>>, jobs: us
         execs: 0,
         fingerprints: BTreeMap::new(),
         violations: vec![],
+        slowest: vec![],
     };
     for msg in rx {
         match msg {
@@ -444,6 +452,11 @@ fn run_chunks(prop: &Prop, tier: Tier, seed: u64, lists: Vec<Vec<u64>>, jobs: us
                 c.sim_ms += rep.sim_ms;
                 c.execs += rep.execs;
                 c.fingerprints.insert(run, rep.fingerprint);
+                if rep.wall_ms >= 200 {
+                    c.slowest.push((rep.wall_ms, run, rep.shape.chars().take(100).collect()));
+                    c.slowest.sort_by(|a, b| b.cmp(a));
+                    c.slowest.truncate(5);
+                }
                 for v in rep.violations {
                     c.violations.push((run, v, sc.clone()));
                 }
@@ -513,7 +526,7 @@ fn short(v: &Value, max: usize) -> Value {
 pub fn check(prop: &Prop, tier: Tier) -> i32 {
     let t0 = Instant::now();
     let seed: u64 = std::env::var("VERIF_SEED").ok().and_then(|s| s.trim().parse().ok()).unwrap_or(20_260_922);
-    let jobs: usize = std::env::var("VERIF_JOBS").ok().and_then(|s| s.parse().ok()).unwrap_or(16).max(1);
+    let jobs: usize = std::env::var("VERIF_JOBS").ok().and_then(|s| s.parse().ok()).unwrap_or(8).max(1);
     let runs: u64 = std::env::var("VERIF_RUNS").ok().and_then(|s| s.parse().ok()).unwrap_or(match tier {
         Tier::Quick => prop.runs_quick,
         Tier::Thorough => prop.runs_thorough,
@@ -656,6 +669,7 @@ pub fn check(prop: &Prop, tier: Tier) -> i32 {
             "components": {"real": prop.real, "stub": prop.stub},
             "known_findings_hit": known_hits,
             "jobs": jobs,
+            "slowest_runs_ms": c.slowest,
         },
         "assumptions": prop.assumptions,
         "wall_s": wall,
@@ -691,7 +705,7 @@ pub fn check(prop: &Prop, tier: Tier) -> i32 {
 /// different chunking; event-log fingerprints must agree.
 pub fn audit(prop: &Prop, tier: Tier) -> i32 {
     let seed: u64 = std::env::var("VERIF_SEED").ok().and_then(|s| s.trim().parse().ok()).unwrap_or(20_260_922);
-    let jobs: usize = std::env::var("VERIF_JOBS").ok().and_then(|s| s.parse().ok()).unwrap_or(16).max(1);
+    let jobs: usize = std::env::var("VERIF_JOBS").ok().and_then(|s| s.parse().ok()).unwrap_or(8).max(1);
     let runs: u64 = std::env::var("VERIF_RUNS").ok().and_then(|s| s.parse().ok()).unwrap_or(600);
     let a = run_chunks(prop, tier, seed, chunked(runs, jobs), jobs);
     let mut rev: Vec<u64> = (0..runs).rev().collect();
